@@ -240,8 +240,8 @@ func runC11_2(c *core.Ctx) {
 				return in
 			}
 			// X < b.len()  (strictly less than a segment length => remainder positive)
-			isLenCall := func(e ast.Expr) bool {
-				call, ok := ast.Unparen(e).(*ast.CallExpr)
+			isLenCall := func(e ast.Expr) bool { // b.len(), possibly through a local that names it
+				call, ok := seeThrough(f, e).(*ast.CallExpr)
 				if !ok {
 					return false
 				}
@@ -251,6 +251,9 @@ func runC11_2(c *core.Ctx) {
 				return false
 			}
 			if (op == token.LSS && e.Sense && isLenCall(y)) || (op == token.GEQ && !e.Sense && isLenCall(y)) {
+				return in | fPos
+			}
+			if (op == token.GTR && e.Sense && isLenCall(x)) || (op == token.LEQ && !e.Sense && isLenCall(x)) { // b.len() > X
 				return in | fPos
 			}
 			cv := flow.ConstOf(f.Info, y)
@@ -400,7 +403,7 @@ func runC11_4(c *core.Ctx) {
 			found = true
 			// &node{buf: X}
 			var bufExpr ast.Expr
-			ast.Inspect(call.Args[0], func(n ast.Node) bool {
+			ast.Inspect(seeThrough(f, call.Args[0]), func(n ast.Node) bool {
 				if kv, ok := n.(*ast.KeyValueExpr); ok {
 					if id, ok := kv.Key.(*ast.Ident); ok && id.Name == "buf" {
 						bufExpr = kv.Value
@@ -418,16 +421,29 @@ func runC11_4(c *core.Ctx) {
 					d := defOf(f.Info, f.Decl.Body, o)
 					isGet := false
 					if call2, ok := ast.Unparen(d).(*ast.CallExpr); ok && d != nil {
-						if cf := flow.CalleeFunc(f.Info, call2); cf != nil && cf.Name() == "Get" && cf.Pkg() != nil && cf.Pkg().Name() == "byteslice" {
+						if cf := flow.CalleeFunc(f.Info, call2); cf != nil && nameOf(cf) == "Get" && cf.Pkg() != nil && cf.Pkg().Name() == "byteslice" {
 							isGet = true
 						}
 					}
+					// copy(b, p) on every path to the push (decided on the CFG, not by source position)
 					copied := false
-					for _, cc := range callsIn(f.Decl.Body, false) {
-						if id, ok := cc.Fun.(*ast.Ident); ok && id.Name == "copy" && len(cc.Args) == 2 && flow.ObjOf(f.Info, cc.Args[0]) == types.Object(o) && flow.ObjOf(f.Info, cc.Args[1]) == types.Object(p0) && cc.Pos() < call.Pos() {
-							copied = true
+					cp := &flow.Problem{Must: true}
+					cp.Node = func(b *flow.Block, i int, n ast.Node, in uint64) uint64 {
+						for _, cc := range flow.Calls(n) {
+							if id, ok := cc.Fun.(*ast.Ident); ok && id.Name == "copy" && len(cc.Args) == 2 && flow.ObjOf(f.Info, cc.Args[0]) == types.Object(o) && flow.ObjOf(f.Info, cc.Args[1]) == types.Object(p0) {
+								in |= 1
+							}
 						}
+						return in
 					}
+					csol := f.Graph().Solve(cp)
+					csol.Walk(func(b *flow.Block, i int, n ast.Node, before uint64) {
+						for _, cc := range flow.Calls(n) {
+							if cc == call && before&1 != 0 {
+								copied = true
+							}
+						}
+					})
 					okk = isGet && copied
 					if !isGet {
 						why = "the stored slice does not come from the byte pool"
@@ -469,7 +485,7 @@ func runC11_5(c *core.Ctx) {
 		for _, b := range fn.Blocks {
 			for _, in := range b.Instrs {
 				if ci, ok := in.(ssa.CallInstruction); ok {
-					if callee := ci.Common().StaticCallee(); callee != nil && callee.Pkg == fn.Pkg && (writes[callee] || callee.Name() == "pop" || callee.Name() == "pushFront" || callee.Name() == "pushBack") {
+					if callee := ci.Common().StaticCallee(); callee != nil && callee.Pkg == fn.Pkg && (writes[callee] || ssaName(callee) == "pop" || ssaName(callee) == "pushFront" || ssaName(callee) == "pushBack") {
 						bad = "calls " + callee.Name()
 					}
 				}
